@@ -7,9 +7,10 @@
      ProofsPrefix  the prefix theorem for truncated images
      ProofsRepair  Repair = truncate at lastValidOff iff the verdict is UnexpectedEOF / size limit
      ProofsWriter  the writer: the tail is an encoder stream, sync points are frame boundaries
+     ProofsNames   segment names (consecutive sequence numbers), isValidSeq, searchIndex
      ProofsSegs    several segments: the crc chained across files
      ProofsFlip    a bit flip inside a record's Data is always detected
      ProofsLog     ReadAll's entry placement
      ProofsRefute  witnesses against the full statement (Spec.C05_full) *)
 From ZV Require Export Wal.ProofsCrc Wal.ProofsProto Wal.ProofsFrame Wal.ProofsDecode Wal.ProofsTorn
-  Wal.ProofsPrefix Wal.ProofsRepair Wal.ProofsWriter Wal.ProofsSegs Wal.ProofsFlip Wal.ProofsLog Wal.ProofsRefute.
+  Wal.ProofsPrefix Wal.ProofsRepair Wal.ProofsWriter Wal.ProofsNames Wal.ProofsSegs Wal.ProofsFlip Wal.ProofsLog Wal.ProofsRefute.
